@@ -23,6 +23,7 @@ Suppressions:
     - misc,assignment: Node type alias when tree-sitter optional dependency unavailable
 """
 
+import re
 from typing import Any
 
 try:
@@ -46,6 +47,55 @@ def _get_node_text(node: Node) -> str:
     return node.text.decode() if node.text else ""
 
 
+# Nodes that may sit between an item and its attributes without detaching them
+_ATTRIBUTE_TRIVIA_TYPES = frozenset({"line_comment", "block_comment"})
+
+_STRING_LITERAL = re.compile(r'"(?:[^"\\]|\\.)*"')
+_NEGATED_TEST = re.compile(r"\bnot\s*\(\s*test\s*\)")
+_TEST_MARKER = re.compile(r"\b(?:test|rstest|test_case)\b")
+
+
+def _preceding_attribute_texts(item_node: Node) -> list[str]:
+    """Collect the text of the attributes attached to an item.
+
+    Comments between an attribute and its item do not detach the attribute.
+
+    Args:
+        item_node: Function or module item node
+
+    Returns:
+        Texts of the attribute_item siblings preceding the item, nearest first
+    """
+    texts: list[str] = []
+    prev_sibling = item_node.prev_sibling
+    while prev_sibling is not None:
+        if prev_sibling.type == "attribute_item":
+            texts.append(_get_node_text(prev_sibling))
+        elif prev_sibling.type not in _ATTRIBUTE_TRIVIA_TYPES:
+            break
+        prev_sibling = prev_sibling.prev_sibling
+    return texts
+
+
+def _attribute_marks_test(attribute_text: str) -> bool:
+    """Check if an attribute marks its item as test code.
+
+    Accepts #[test], #[tokio::test], #[rstest], #[test_case(..)] and #[cfg(test)],
+    but not #[cfg(not(test))] or attributes that merely mention "test" inside a
+    string literal or a longer identifier.
+
+    Args:
+        attribute_text: Source text of the attribute_item
+
+    Returns:
+        True if the attribute marks test code
+    """
+    text = _STRING_LITERAL.sub('""', attribute_text)
+    if _NEGATED_TEST.search(text):
+        return False
+    return _TEST_MARKER.search(text) is not None
+
+
 def has_test_attribute(function_node: Node) -> bool:
     """Check if a function has #[test] attribute as preceding sibling.
 
@@ -55,12 +105,7 @@ def has_test_attribute(function_node: Node) -> bool:
     Returns:
         True if function has #[test] attribute
     """
-    prev_sibling = function_node.prev_sibling
-    while prev_sibling is not None and prev_sibling.type == "attribute_item":
-        if "test" in _get_node_text(prev_sibling):
-            return True
-        prev_sibling = prev_sibling.prev_sibling
-    return False
+    return any(_attribute_marks_test(text) for text in _preceding_attribute_texts(function_node))
 
 
 def has_cfg_test_attribute(mod_node: Node) -> bool:
@@ -72,12 +117,7 @@ def has_cfg_test_attribute(mod_node: Node) -> bool:
     Returns:
         True if module has #[cfg(test)] attribute
     """
-    prev_sibling = mod_node.prev_sibling
-    while prev_sibling is not None and prev_sibling.type == "attribute_item":
-        if "cfg(test)" in _get_node_text(prev_sibling):
-            return True
-        prev_sibling = prev_sibling.prev_sibling
-    return False
+    return any("cfg(test)" in text for text in _preceding_attribute_texts(mod_node))
 
 
 def is_inside_test(node: Node) -> bool:
